@@ -528,7 +528,7 @@ service Svc { rpc M(Outer) returns (Outer); }
 				continue
 			}
 			m2 := dynamicpb.NewMessage(outer)
-			if uerr := proto.Unmarshal(out, m2); uerr != nil {
+			if uerr := PUnmarshal(out, m2); uerr != nil {
 				cs.Viol("desc:lenprefix:rejected-by-reference", "err", uerr, "out-len", len(out), "ref-len", len(PMarshal(m)))
 			} else if !proto.Equal(m, m2) {
 				cs.Viol("desc:lenprefix:different-message", "out-len", len(out))
@@ -586,7 +586,7 @@ service Svc { rpc M(Outer) returns (Outer); }
 				continue
 			}
 			m2 := dynamicpb.NewMessage(pc.Root)
-			if uerr := proto.Unmarshal(out, m2); uerr != nil {
+			if uerr := PUnmarshal(out, m2); uerr != nil {
 				cs.Viol("desc:WriteAnyWithDesc:rejected-by-reference:"+c20Kinds(m), "err", uerr, "out", out, "mode", mode)
 			} else if !proto.Equal(m, m2) {
 				cs.Viol("desc:WriteAnyWithDesc:different-message:"+c20Kinds(m), "got", fmt.Sprint(m2), "want", fmt.Sprint(m), "mode", mode)
@@ -613,7 +613,7 @@ service Svc { rpc M(Outer) returns (Outer); }
 					continue
 				}
 				m2 := dynamicpb.NewMessage(pc.Root)
-				if uerr := proto.Unmarshal(out, m2); uerr != nil {
+				if uerr := PUnmarshal(out, m2); uerr != nil {
 					cs.Viol("desc:WriteAnyWithDesc:"+kind+":rejected-by-reference", "err", uerr, "out", out, "mode", mode, "go", GoStr(g))
 				} else if !proto.Equal(m, m2) {
 					cs.Viol("desc:WriteAnyWithDesc:"+kind+":different-message", "got", fmt.Sprint(m2), "want", fmt.Sprint(m), "mode", mode)
